@@ -4,6 +4,7 @@ import (
 	"fmt"
 	"go/types"
 	"math/big"
+	"regexp"
 	"sort"
 	"strings"
 	"time"
@@ -12,6 +13,8 @@ import (
 )
 
 var bigOne = big.NewInt(1)
+
+var identRe = regexp.MustCompile(`[A-Za-z_][A-Za-z0-9_.]*![0-9]+`)
 
 // MaxLen is the assumed upper bound of every slice/string length and capacity
 // (amd64 user address space); listed as assumption A-LEN in the evidence.
@@ -218,6 +221,20 @@ func (u *Unit) byteFact(b *Term) {
 	u.S.Assert(And(Le(IntLit(0), b), Le(b, IntLit(255))))
 }
 
+// mkArr builds a derived array; the index of every read is named first so
+// that expansions through long write histories stay linear in size.
+func (u *Unit) mkArr(fn func(idx *Term) *Term) *Term {
+	return MkArr(func(idx *Term) *Term {
+		if u.binder == 0 && len(idx.S) > 48 && !idx.IsInt {
+			c := u.newConst("ix", SInt)
+			u.S.Assert(Eq(c, idx))
+			lo, hi := bounds(idx)
+			idx = WithBounds(c, lo, hi)
+		}
+		return fn(idx)
+	})
+}
+
 func (u *Unit) assume(t *Term) {
 	if u.binder > 0 {
 		u.limit("side condition inside a quantifier body dropped")
@@ -268,8 +285,35 @@ func (u *Unit) check(st *State, name, kind string, goal *Term, text string) bool
 		return true
 	}
 	t0 := time.Now()
-	r, _ := u.S.CheckGoal(goal, nil)
+	var want []string
+	if o.Status == "proved" && u.Cfg.WantModel {
+		for _, l := range u.inputs {
+			switch l.Kind {
+			case "int", "bool":
+				want = append(want, l.T.S)
+			case "bytes", "str", "list":
+				want = append(want, l.Len.S)
+				if l.Off != nil {
+					want = append(want, l.Off.S, l.Cap.S, l.Blk.S)
+				}
+			}
+		}
+		if len(want) > 60 {
+			want = want[:60]
+		}
+		seen := map[string]bool{}
+		for _, id := range identRe.FindAllString(goal.S, -1) {
+			if !seen[id] && len(seen) < 24 {
+				seen[id] = true
+				want = append(want, id)
+			}
+		}
+	}
+	r, model := u.S.CheckGoal(goal, want)
 	o.TimeS += time.Since(t0).Seconds()
+	if r == "sat" && model != nil && o.Model == nil {
+		o.Model = model
+	}
 	if r == "unsat" {
 		if o.Solver == "" {
 			o.Solver = u.Cfg.Z3 + " (incremental)"
